@@ -15,7 +15,9 @@ use tantivy::directory::{
     AntiCallToken, Directory, DirectoryLock, FileHandle, Lock, RamDirectory, TerminatingWrite, WatchCallback,
     WatchHandle, WritePtr,
 };
-use tantivy::schema::{Schema, STORED, TEXT};
+use tantivy::collector::TopDocs;
+use tantivy::query::TermQuery;
+use tantivy::schema::{IndexRecordOption, Schema, STORED, STRING, TEXT};
 use tantivy::{doc, Index, IndexWriter, ReloadPolicy, Term};
 
 #[derive(Clone)]
@@ -212,6 +214,12 @@ fn main() -> tantivy::Result<()> {
         rec.api("commit2", c2.is_ok());
         let rl = reader.reload();
         rec.api("reload", rl.is_ok());
+        // a commit that only deletes (new .del file for an existing segment, no new segment)
+        writer.delete_term(Term::from_field_text(text, "f"));
+        let c3 = writer.commit();
+        rec.api("commit3_deletes_only", c3.is_ok());
+        let rl = reader.reload();
+        rec.api("reload", rl.is_ok());
         let n = reader.searcher().num_docs();
         rec.api(&format!("num_docs={}", n), true);
         let ids = index.searchable_segment_ids()?;
@@ -240,6 +248,31 @@ fn main() -> tantivy::Result<()> {
         Ok(())
     })();
     rec.api("scenario", r.is_ok());
+    // second scenario (no storage interest): top-1 by score must equal the head of the exhaustive
+    // ranking for a single-term query on a Basic-indexed (no term frequencies) multi-valued field
+    let r2 = (|| -> tantivy::Result<bool> {
+        let mut sb = Schema::builder();
+        let tag = sb.add_text_field("tag", STRING);
+        let index = Index::create_in_ram(sb.build());
+        let mut w: IndexWriter = index.writer_with_num_threads(1, 50_000_000)?;
+        for d in 0..400u32 {
+            let mut doc = tantivy::TantivyDocument::default();
+            doc.add_text(tag, "a");
+            if d != 300 {
+                for i in 0..5 {
+                    doc.add_text(tag, format!("v{i}"));
+                }
+            }
+            w.add_document(doc)?;
+        }
+        w.commit()?;
+        let searcher = index.reader()?.searcher();
+        let q = TermQuery::new(Term::from_field_text(tag, "a"), IndexRecordOption::Basic);
+        let all = searcher.search(&q, &TopDocs::with_limit(1000).order_by_score())?;
+        let top1 = searcher.search(&q, &TopDocs::with_limit(1).order_by_score())?;
+        Ok(all[0].1 == top1[0].1)
+    })();
+    rec.api("top1_basic_multivalued", matches!(r2, Ok(true)));
     for l in rec.log.lock().unwrap().iter() {
         println!("{}", l);
     }
